@@ -20,3 +20,8 @@ pub fn token(token: &simdep::types::Token, widget: simdep::types::Widget) -> Res
 pub fn root_fallback() -> Response {
     Response::not_found()
 }
+
+#[pavex::get(path = "/badge", id = "BADGE")]
+pub fn badge(badge: &simdep::Badge) -> Response {
+    Response::ok().set_typed_body(badge.0.to_string())
+}
